@@ -1059,3 +1059,31 @@ def colFirstOK (sp : Spec) (a0 : Answer) (n : Nat) : Bool :=
     !(ncols sp a0 + (if sp.kw then 1 else 0) == 1 && n == 1)
 
 end Coba.C15
+
+namespace Coba.C15
+
+/-- the rows of a batched call as the learner sees them: its intended answer and the actions it is given -/
+def rowsOf (pol : Policy) (cs : List PyVal) (rows : List (List PyVal)) : List (Answer × List PyVal) := zipWithAns pol cs rows
+
+/-- side conditions on EVERY batched call -/
+def callOK (fx : Fixes) (sp : Spec) (R : List (Answer × List PyVal)) : Bool :=
+  match sp.layout with
+  | .col => colParseOK fx sp && pmfTable sp R
+  | _ => !sp.kw || sameKeys R
+
+/-- side conditions on the FIRST batched call (the one layout, kwargs and format are detected on) -/
+def firstCallOK (fx : Fixes) (sp : Spec) (R : List (Answer × List PyVal)) : Bool :=
+  match R with
+  | [] => false
+  | r :: R' =>
+    firstRowOK fx sp r.1 r.2 &&
+      (match sp.layout with
+       | .col => colFirstOK sp r.1 (R'.length + 1)
+       | _ => dictRowsOK fx sp (r :: R'))
+
+/-- "the learner uses one documented format consistently, answering with the offered action objects themselves, or with
+explicit dict hints where a value could be read two ways" - for one batched call in state `st` -/
+def Unambiguous (fx : Fixes) (sp : Spec) (st : State) (R : List (Answer × List PyVal)) : Bool :=
+  callOK fx sp R && (st.layout.isSome || firstCallOK fx sp R)
+
+end Coba.C15
